@@ -34,6 +34,7 @@ def run(ctx):
     r013(ctx, t0, t1)
     r014(ctx)
     r015(ctx)
+    r016(ctx)
     # "whether the simplifier is applied to one expression or to all expressions of a transition system": the system-level driver
     # (system/transform.rs, anchored by this property) must hand every expression of the system to the engine and re-point every field
     # to its own result - the clauses of C11, re-evaluated here under their own rule ids
@@ -118,6 +119,72 @@ def r012(ctx):
                              show(inst["node"]), inst["from"], inst["to"], path, inst["to"] + "::MAX", why),
                          sample={"fn": path, "cast": show(inst["node"]), "from": inst["from"], "to": inst["to"], "guard": why})
     ctx.extra["narrowing_casts_in_simplify"] = n
+
+
+def r016(ctx):
+    """who-may-call: a helper that classifies the two operands of a node without remembering which was which (`(lit, _)` and `(_, lit)` give the
+    same answer with the roles swapped) may only serve rules of commutative operators"""
+    ctx.rule("R01.6", "an order-forgetting operand helper of expr::simplify (mirrored `(P, _)` / `(_, P)` arms over the two operands) is called only from rule functions the dispatcher uses for commutative variants")
+    from ..tables import COMMUTATIVE
+    c = ctx.facts.lib("patronus")
+    SIMP = "patronus::expr::simplify::"
+    helpers = {}
+    for path, fl in c.raw_fns.items():
+        if not path.startswith(SIMP) or "::tests::" in path:
+            continue
+        f = fl[0]
+        eparams = [binding_of(p_) for p_ in f["params"] if "ExprRef" in str(p_.get("ty", "")) and "[" not in str(p_.get("ty", ""))]
+        eparams = [b_[1] for b_ in eparams if b_]
+        if len(eparams) != 2:
+            continue
+        for m in walk(f["body"]):
+            if m.get("k") != "match" or peel(m["scrut"]).get("k") != "tuple" or len(peel(m["scrut"])["es"]) != 2:
+                continue
+            idx = [resolve(peel(x)) for x in peel(m["scrut"])["es"]]
+            if not all(x.get("k") == "index" and peel(x["i"]).get("k") == "local" for x in idx) or {peel(x["i"])["id"] for x in idx} != set(eparams):
+                continue
+            shapes = []
+            for arm in m["arms"]:
+                pt = arm["pat"]
+                while pt.get("k") in ("pref", "pderef"):
+                    pt = pt["pat"]
+                if pt.get("k") == "ptuple" and len(pt["subs"]) == 2:
+                    def shp(q):
+                        while q.get("k") in ("pref", "pderef"):
+                            q = q["pat"]
+                        return "_" if q.get("k") == "pwild" else (q.get("path") or q.get("k"))
+                    shapes.append((shp(pt["subs"][0]), shp(pt["subs"][1])))
+            if any(a_ != "_" and b_ == "_" and ("_", a_) in shapes for a_, b_ in shapes):
+                helpers[path] = f
+    # which variants each rule function serves
+    disp = ctx.fn("patronus", SIMP + "simplify")
+    served = {}
+    for m in walk(disp["body"]):
+        if m.get("k") != "match":
+            continue
+        for arm in m["arms"]:
+            vs = {q["path"].split("::")[-1] for q in walk(arm["pat"]) if q.get("k") in ("pvariant", "pstruct") and str(q.get("path", "")).startswith(EXPR + "::")}
+            if not vs:
+                continue
+            for n in walk(arm["body"]):
+                if n.get("k") == "call" and (callee(n) or "").startswith(SIMP):
+                    served.setdefault(callee(n), set()).update(vs)
+    helpers = {p_: f_ for p_, f_ in helpers.items() if p_ not in served}      # a rule function is not a helper
+    n_calls = 0
+    for path, fl in sorted(c.raw_fns.items()):
+        if not path.startswith(SIMP) or path in helpers or "::tests::" in path:
+            continue
+        f = fl[0]
+        for x in walk(f["body"]):
+            if x.get("k") == "call" and callee(x) in helpers:
+                n_calls += 1
+                vs = served.get(path)
+                ok = bool(vs) and vs <= set(COMMUTATIVE)
+                ctx.inst("R01.6", "%s:%s" % (path.split("::")[-1], callee(x).split("::")[-1]), ok, x["sp"],
+                         "%s classifies its operands with %s, which does not remember which operand was the literal, but the dispatcher uses it for %s: a rewrite that depends on the operand order (`lit >= x` vs `x >= lit`) is applied in both orientations" % (
+                             path, callee(x).split("::")[-1], sorted(vs) if vs else "variants that could not be determined"),
+                         sample={"rule": path.split("::")[-1], "helper": callee(x).split("::")[-1], "variants": sorted(vs or [])})
+    ctx.floor("R01.6", "calls of order-forgetting operand helpers", n_calls, 5)
 
 
 def r014(ctx):
